@@ -423,14 +423,22 @@ def run_case_shards(pid: str, header: str, terms: list[str], shard=250, timeout=
             return None, f"{f.name}: unparsable output {p.stdout[-500:]}"
         return [int(x) for x in re.findall(r"\d+", m.group(1))], None
 
-    failing, errors = [], []
+    failing, errors, retry = [], [], []
     with ThreadPoolExecutor(NPROC) as ex:
         for (fi, res) in zip(files, ex.map(one, files)):
             bad, err = res
-            if err:
+            if err and re.search(r"coqc exit (-\d+|137|124)\b", err):
+                retry.append(fi)       # killed (memory pressure from the other shards / other jobs) or timed out
+            elif err:
                 errors.append(err)
             else:
                 failing.extend(bad)
+    for fi in retry:                   # once more, one at a time
+        bad, err = one(fi)
+        if err:
+            errors.append(err)
+        else:
+            failing.extend(bad)
     return sorted(failing), errors, len(files)
 
 
